@@ -104,8 +104,10 @@ class PossibleMatch:
         self._open_atoms = []
 
         possible_substructures = mol.GetSubstructMatches(pattern)
+        open_atoms = None
         if substructure in possible_substructures:
             open_atoms = self._find_open_atoms(substructure, token)
+        if open_atoms is not None:
             self._add_new_open_atoms(open_atoms)
             self._log_prob = np.log(initial_prob)
             self.add_handled_atoms(substructure)
@@ -156,11 +158,18 @@ class PossibleMatch:
         self._handled_atoms.append(tuple(substructure))
 
     def _find_open_atoms(self, substructure, token):
+        """
+        Find the bonds that leave the substructure, and the bond descriptors they correspond to.
+
+        Returns `None` if the substructure is not an instance of the token in this molecule:
+        atoms already handled, bonds to the outside that no bond descriptor accounts for
+        (or bond descriptors without such a bond), or a bond order different from the descriptor's.
+        """
         outside_bonds = []
         open_atoms = []
         for atom_idx in substructure:
             if self.is_atom_handled(atom_idx):
-                return []
+                return None
             aoi = self._mol.GetAtomWithIdx(atom_idx)
             for bond in aoi.GetBonds():
                 if (
@@ -175,7 +184,7 @@ class PossibleMatch:
                     outside_bonds.append((bond.GetEndAtomIdx(), bond.GetBeginAtomIdx()))
         # Consider it only a true match if the number of outside bonds matches the number of bond descriptors
         if len(outside_bonds) != len(token.bond_descriptors):
-            return []
+            return None
         # Ensure that the outside bonds correspond to bond descriptors
         tmp_bd = copy.deepcopy(token.bond_descriptors)
         for bond in outside_bonds:
@@ -183,6 +192,9 @@ class PossibleMatch:
             bd_idx = None
             for i in range(len(tmp_bd)):
                 if token_pos == tmp_bd[i].atom_bonding_to:
+                    mol_bond = self._mol.GetBondBetweenAtoms(bond[0], bond[1])
+                    if mol_bond.GetBondType() != tmp_bd[i].bond_type:
+                        continue
                     if not self.is_atom_handled(bond[1]):
                         open_atoms.append(OpenAtom(bond, tmp_bd[i]))
                     if bd_idx is not None:
@@ -190,7 +202,7 @@ class PossibleMatch:
                     bd_idx = i
                     break
             if bd_idx is None:
-                return []
+                return None
             del tmp_bd[bd_idx]
         if len(tmp_bd) != 0:
             raise RuntimeError("length should be 0 here")
@@ -308,6 +320,8 @@ class PossibleMatch:
                             new_match = match.copy(reaction_prob)
                             # Find new open bond that can react
                             new_open_atoms = new_match._find_open_atoms(substructure, token)
+                            if new_open_atoms is None:
+                                continue
                             new_match._add_new_open_atoms(new_open_atoms)
                             # Add the handled atoms to the match
                             new_match.add_handled_atoms(substructure)
